@@ -105,7 +105,7 @@ type termWorld struct {
 	ops  []termOp
 
 	withHost bool
-	handler  int // 0 fast, 1 slow, 2 posts to the host non-blocking
+	handler  int // 0 fast, 1 slow, 2 posts to the host non-blocking, 3 reads the widget's contents back
 	drawer   bool
 
 	env                *sessionEnv
@@ -323,7 +323,7 @@ func enumOps(rows, cols int) []string {
 // with boundary parameters, event bursts and raw bytes.
 func genWildOp(t *simrt.Tape, rows, cols int) (string, string) {
 	big := func(size int) string {
-		return []string{"", "0", "1", fmt.Sprint(max(size-1, 0)), fmt.Sprint(size), fmt.Sprint(size + 1), "32768", "2147483647", fmt.Sprint(t.Draw(size + 3))}[t.Draw(9)]
+		return []string{"", "0", "1", fmt.Sprint(max(size-1, 0)), fmt.Sprint(size), fmt.Sprint(size + 1), "32768", "2147483647", fmt.Sprint(t.Draw(size + 3)), "4294967296", "9223372036854775807", "9223372036854775806", "18446744073709551616"}[t.Draw(13)]
 	}
 	switch t.Draw(16) {
 	case 0, 1, 2, 3:
@@ -426,7 +426,7 @@ func (w *termWorld) Build(t *simrt.Tape, spec RunSpec) {
 	}
 	w.rows, w.cols = 1+t.Draw(10), 1+t.Draw(20)
 	w.withHost = true
-	w.handler = t.Draw(3)
+	w.handler = t.Draw(4)
 	w.drawer = t.Draw(2) == 0
 	n := 1 + t.Draw(60)
 	rows, cols := w.rows, w.cols
@@ -477,6 +477,13 @@ func (w *termWorld) onEvent(ev vaxis.Event) {
 	case 2:
 		if w.vx != nil {
 			w.vx.PostEvent(ev)
+		}
+	case 3:
+		// a consumer that looks at the terminal when it is told something
+		// happened (a title change, a bell): events are raised without the
+		// widget's lock held
+		if _, closed := ev.(term.EventClosed); !closed && w.vt != nil {
+			_ = w.vt.String()
 		}
 	}
 	if p, ok := ev.(term.EventPanic); ok && w.panicEv == "" {
